@@ -2444,7 +2444,7 @@ Note that if the receiver is in an invalid state, or has a zero length,
 nothing will be removed.
 */
 func (r Stack) Pop() (popped any, ok bool) {
-	if !r.IsEmpty() {
+	if r.IsInit() {
 		if !r.getState(ronly) {
 			popped, ok = r.stack.pop()
 		}
@@ -2459,6 +2459,13 @@ func (r *stack) pop() (slice any, ok bool) {
 
 	r.lock()
 	defer r.unlock()
+
+	// emptiness must be judged while locked, else a
+	// concurrent Pop may have taken the last slice and
+	// the configuration slice (#0) would be popped.
+	if r.ulen() == 0 {
+		return
+	}
 
 	var idx int
 
